@@ -34,6 +34,7 @@ MAX_SEQUENCE_LENGTH = 1_000_000  # Longest str/list/tuple a repetition may build
 MAX_FACTORIAL_ARG = 5_000
 MAX_ROUND_DIGITS = 10_000  # |ndigits| accepted by round()
 MAX_KEYED_ELEMENTS = 1_000  # Elements a function-valued argument (key=...) may be applied to
+MAX_RENDER_BYTES = 20_000_000  # Largest result digest_glucose() turns into text
 
 
 def _bounded_pow(base: Any, exponent: Any) -> Any:
@@ -54,6 +55,24 @@ def _deep_size(obj: Any, limit: int) -> int:
             total += len(current)
             if isinstance(current, (list, tuple)):
                 stack.extend(item for item in current if isinstance(item, (str, bytes, list, tuple)))
+    return total
+
+
+def _render_size(obj: Any, limit: int) -> int:
+    """Rough size in bytes of the text str(obj) would produce (big integers count by their digits); stops once above limit."""
+    total = 0
+    stack = [obj]
+    while stack and total <= limit:
+        current = stack.pop()
+        if isinstance(current, (str, bytes)):
+            total += len(current)
+        elif isinstance(current, int):
+            total += current.bit_length() // 3 + 1
+        elif isinstance(current, (list, tuple)):
+            total += 2 * len(current)
+            stack.extend(current)
+        else:
+            total += 16
     return total
 
 
@@ -469,6 +488,8 @@ class Mitochondria:
         """
         result = self.metabolize(expression, MetabolicPathway.GLYCOLYSIS)
         if result.success and result.atp:
+            if _render_size(result.atp.value, MAX_RENDER_BYTES) > MAX_RENDER_BYTES:
+                return "Metabolic Failure: Result too large to render"
             try:
                 return str(result.atp.value)
             except ValueError as e:
